@@ -6,7 +6,8 @@
 (* declared digest, which liberties the server may take).  part / early /   *)
 (* refuse are permissions: the server may, but need not, use them.          *)
 (* A destination that enforces its minimum chunk length never accepts a     *)
-(* chunk partially (part = ~enforce) except in S13Confs.                    *)
+(* chunk partially and never keeps part of a request it fails (part =       *)
+(* ~enforce) except in S13Confs.                                            *)
 EXTENDS BlobPut
 
 Decls == {"none", "right", "wrongdig", "sizeplus", "sizeminus", "digonly", "sizeonly",
